@@ -205,12 +205,14 @@ def check_kernel_sums(ctx, name, quick):
 
 
 def _fd_points(x, h):
+    """x, then x +- h e_a (columns 1..6), then x +- 2h e_a (columns 7..12)."""
     pts = [x]
-    for a in range(3):
-        for s in (+1, -1):
-            y = x.copy()
-            y[a] += s * h
-            pts.append(y)
+    for m in (1, 2):
+        for a in range(3):
+            for s in (+1, -1):
+                y = x.copy()
+                y[a] += s * m * h
+                pts.append(y)
     return np.array(pts).T
 
 
@@ -221,9 +223,15 @@ def check_pde(ctx, name, quick):
     grid = SP.make_grid(mesh)
     par = ops.params(4, 4)
     dist = [R.distance_to_surface(POINTS[:, q], mesh[0], mesh[1]) for q in range(POINTS.shape[1])]
+    area = float(np.sum(R.geometry(mesh[0], mesh[1])["integration_elements"])) / 2.0
+    closed = R.is_closed_manifold(mesh[1])
     for q in range(POINTS.shape[1] if not quick else 3):
         x = POINTS[:, q].copy()
-        h = 2e-3 * dist[q]
+        # step relative to the shorter of the distance to the surface and the reduced wavelength of the largest wavenumber in the lattice
+        # (central differences: truncation ~ (h/L)^2 resp. (h/L)^4 of the quantity differentiated, L that length)
+        kmax = 2.5
+        L = min(dist[q], 1.0 / kmax)
+        h = 1e-2 * L
         P7 = _fd_points(x, h)
         for spec in space_specs(mesh, False)[: 2 if quick else None]:
             sp = SP.make_space(grid, dict({"sel": ("all",)}, **spec))
@@ -231,21 +239,35 @@ def check_pde(ctx, name, quick):
             for family, k in SCALAR:
                 for opn in ("single_layer", "double_layer"):
                     u = np.asarray(ops.potential(family, opn, sp, P7, k=k, par=par).evaluate(bem.GridFunction(sp, coefficients=c))).reshape(-1)
-                    lap = (u[1:].sum() - 6 * u[0]) / h**2
+                    # fourth-order central second differences: (-f(2h) + 16 f(h) - 30 f(0) + 16 f(-h) - f(-2h)) / (12 h^2) per axis
+                    lap = (16 * u[1:7].sum() - u[7:13].sum() - 90 * u[0]) / (12 * h**2)
                     k2 = 0.0 if family == "laplace" else (k * k if family == "helmholtz" else -k * k)
                     res = abs(lap + k2 * u[0])
-                    scale = abs(u[0]) * (abs(k2) + 6.0 / dist[q] ** 2) + 1e-300
+                    # natural magnitude of the potential (not |u(x)|, which may sit near a zero): max|c| * area * |G| bound at that distance
+                    kk = 0.0 if k is None else abs(k)
+                    gmag = float(np.max(np.abs(c))) * area / (4 * np.pi * dist[q]) * (1.0 if opn == "single_layer" else (1.0 / dist[q] + kk))
+                    scale = max(abs(u[0]), gmag) * (abs(k2) + 6.0 / dist[q] ** 2) + 1e-300
                     ctx.case((name, "pde", family, repr(k), opn, SP.spec_key(dict({"sel": ("all",)}, **spec)), q), sub="pde")
                     ctx.observe("pde-residual(FD)", res / scale, FD)
                     if res > FD * scale:
                         ctx.violation("pde/%s/%s" % (family, opn), {"sub": "pde", "mesh": name, "family": family, "k": k, "operator": opn, "point": x.tolist()},
                                       "(Laplacian + k^2) u = %.3e relative to %.3e" % (res, scale))
         # Maxwell
-        for spec in space_specs(mesh, True)[: 1 if quick else None]:
+        mspecs = space_specs(mesh, True)[: 1 if quick else None]
+        if not quick:
+            mspecs = mspecs + [dict(sp_, inc=False) for sp_ in mspecs if sp_.get("sel") or not closed]
+        for spec in mspecs:
             try:
                 sp = SP.make_space(grid, dict({"sel": ("all",)}, **spec))
             except Exception:  # noqa: BLE001
                 continue
+            if sp.global_dof_count == 0:
+                continue
+            # functions with normal flux through the border of their support (half RWGs on an open border) carry a line charge that the
+            # surface-divergence term of the electric potential does not contain: div E = 0 and curl H = -ik E are statements about
+            # div-conforming currents only; curl E = ik H and div H = 0 hold for any tangential current
+            flux_free = (closed and not spec.get("sel")) or spec.get("inc") is False
+            ctx.cover("maxwell_pde_flux_free" if flux_free else "maxwell_pde_with_border_flux", SP.spec_key(dict({"sel": ("all",)}, **spec)))
             c = np.cos(np.arange(sp.global_dof_count) * 0.9 + 0.2) + 1j * np.sin(np.arange(sp.global_dof_count) * 0.4)
             for k in MAXK:
                 parh = ops.params(10, 4)
@@ -255,7 +277,8 @@ def check_pde(ctx, name, quick):
                 def jac(Fld):
                     J = np.zeros((3, 3), dtype=complex)
                     for a in range(3):
-                        J[:, a] = (Fld[:, 1 + 2 * a] - Fld[:, 2 + 2 * a]) / (2 * h)
+                        # fourth-order central first difference
+                        J[:, a] = (8 * (Fld[:, 1 + 2 * a] - Fld[:, 2 + 2 * a]) - (Fld[:, 7 + 2 * a] - Fld[:, 8 + 2 * a])) / (12 * h)
                     return J
 
                 def curl(J):
@@ -265,6 +288,8 @@ def check_pde(ctx, name, quick):
                 mag = (np.linalg.norm(E[:, 0]) + np.linalg.norm(H[:, 0])) * (abs(k) + 1.0 / dist[q])
                 checks = {"curlE=ikH": curl(JE) - 1j * k * H[:, 0], "curlH=-ikE": curl(JH) + 1j * k * E[:, 0], "divE=0": np.trace(JE), "divH=0": np.trace(JH)}
                 for tag, val in checks.items():
+                    if not flux_free and tag in ("curlH=-ikE", "divE=0"):
+                        continue
                     res = float(np.max(np.abs(val)))
                     ctx.case((name, "maxwell-pde", tag, repr(k), q, SP.spec_key(dict({"sel": ("all",)}, **spec))), sub="pde")
                     ctx.observe("maxwell-" + tag, res / mag, FD)
